@@ -31,6 +31,11 @@ def gen_text(rng, tier):
         nops = rng.choice([3, 50, 1000, 4096])
         chain = ''.join(rng.choice(['?', '!']) + rng.choice(['', '', '♥', '♡']) for _ in range(nops))
         return 'huge_preamble', pre + rng.choice(['형', '혀엉..', '흑.']) + chain + rng.choice(['', ' 항.!♥'])
+    if k < 0.012:
+        # a special character as the VERY FIRST character of the text (byte order mark, NUL, separators, format characters),
+        # commands on the same first line: it is one ordinary character with no effect - and it occupies a column
+        first = rng.choice(['\ufeff', '\ufeff', '\x00', '\u3000', '\u00a0', '\u2028', '\u0085', '\r', '\u200b', '\U0010ffff', '\ufffe', '\x0b'])
+        return 'special_first_char', first * rng.choice([1, 1, 2]) + noise.render_noisy(rng, noise.random_cmds(rng, 4))
     if k < 0.45:
         return 'random', noise.random_text(rng, 60 if tier == 'quick' else 200)
     if k < 0.6:
